@@ -23,6 +23,7 @@ import (
 	"github.com/tendermint/tendermint/crypto"
 	"github.com/tendermint/tendermint/crypto/ed25519"
 	"github.com/tendermint/tendermint/crypto/merkle"
+	"github.com/tendermint/tendermint/evidence"
 	cryptoenc "github.com/tendermint/tendermint/crypto/encoding"
 	"github.com/tendermint/tendermint/libs/log"
 	tmsync "github.com/tendermint/tendermint/libs/sync"
@@ -143,6 +144,7 @@ type evT struct {
 	Kind  int
 	Inner []byte
 	Basic bool
+	DVT   string // the evidence in C11's structured terms (generator side only; the model's input)
 }
 
 type blkT struct {
@@ -216,7 +218,11 @@ func showEvs(e []evT) string {
 		if x.Basic {
 			b = 1
 		}
-		s[i] = fmt.Sprintf("%d:%s:%d", x.Kind, hx(x.Inner), b)
+		d := x.DVT
+		if d == "" {
+			d = "-"
+		}
+		s[i] = fmt.Sprintf("%d:%s:%d:%s", x.Kind, hx(x.Inner), b, d)
 	}
 	return strings.Join(s, ",")
 }
@@ -228,10 +234,14 @@ func parseEvs(s string) []evT {
 	var out []evT
 	for _, e := range strings.Split(s, ",") {
 		q := strings.Split(e, ":")
-		if len(q) != 3 {
+		if len(q) != 3 && len(q) != 4 {
 			panic("bad ev " + e)
 		}
-		out = append(out, evT{Kind: int(atoi(q[0])), Inner: unhx(q[1]), Basic: q[2] == "1"})
+		x := evT{Kind: int(atoi(q[0])), Inner: unhx(q[1]), Basic: q[2] == "1"}
+		if len(q) == 4 && q[3] != "-" {
+			x.DVT = q[3]
+		}
+		out = append(out, x)
 	}
 	return out
 }
@@ -446,38 +456,43 @@ func (a *scriptApp) EndBlock(abci.RequestEndBlock) abci.ResponseEndBlock {
 }
 func (a *scriptApp) Commit() abci.ResponseCommit { return abci.ResponseCommit{Data: a.sc.AppHash} }
 
-type evPool struct {
-	pending []types.Evidence
-	admit   bool
+// in-memory block store for the evidence pool: metas of applied blocks, commits saved with the next block
+type memBS struct {
+	metas   map[int64]*types.BlockMeta
+	commits map[int64]*types.Commit
+	h       int64
 }
 
-func (p *evPool) PendingEvidence(maxBytes int64) ([]types.Evidence, int64) {
-	// as evidence.Pool.listEvidence: longest prefix whose EvidenceList size is within maxBytes
-	var out []types.Evidence
-	var size int64
-	var l tmproto.EvidenceList
-	for _, e := range p.pending {
-		pe, err := types.EvidenceToProto(e)
-		if err != nil {
-			panic(err)
-		}
-		l.Evidence = append(l.Evidence, *pe)
-		if s := int64(l.Size()); maxBytes != -1 && s > maxBytes {
-			return out, size
-		} else {
-			size = s
-		}
-		out = append(out, e)
-	}
-	return out, size
+func newMemBS() *memBS {
+	return &memBS{metas: map[int64]*types.BlockMeta{}, commits: map[int64]*types.Commit{}}
 }
-func (p *evPool) AddEvidence(types.Evidence) error    { return nil }
-func (p *evPool) Update(sm.State, types.EvidenceList) {}
-func (p *evPool) CheckEvidence(types.EvidenceList) error {
-	if !p.admit {
-		return fmt.Errorf("scripted-evidence-pool-reject")
+func (b *memBS) LoadBlockMeta(h int64) *types.BlockMeta { return b.metas[h] }
+func (b *memBS) LoadBlockCommit(h int64) *types.Commit  { return b.commits[h] }
+func (b *memBS) Height() int64                          { return b.h }
+
+// what consensus does before ApplyBlock: the block is saved; returns the undo for a refused block
+func (b *memBS) save(blk *types.Block, bid types.BlockID) func() {
+	oldH := b.h
+	oldMeta, hadMeta := b.metas[blk.Height]
+	oldC, hadC := b.commits[blk.Height-1]
+	b.metas[blk.Height] = &types.BlockMeta{BlockID: bid, Header: blk.Header, NumTxs: len(blk.Txs)}
+	if blk.LastCommit != nil {
+		b.commits[blk.Height-1] = blk.LastCommit
 	}
-	return nil
+	b.h = blk.Height
+	return func() {
+		b.h = oldH
+		if hadMeta {
+			b.metas[blk.Height] = oldMeta
+		} else {
+			delete(b.metas, blk.Height)
+		}
+		if hadC {
+			b.commits[blk.Height-1] = oldC
+		} else {
+			delete(b.commits, blk.Height-1)
+		}
+	}
 }
 
 type poolMempool struct {
@@ -510,16 +525,15 @@ type replica struct {
 	app   *scriptApp
 	store sm.Store
 	exec  *sm.BlockExecutor
-	evp   *evPool
+	evp   *evidence.Pool
+	bs    *memBS
 	mp    *poolMempool
 	state sm.State
 }
 
 func newReplica() *replica {
-	r := &replica{app: &scriptApp{}, evp: &evPool{admit: true}, mp: &poolMempool{}}
+	r := &replica{app: &scriptApp{}, mp: &poolMempool{}, bs: newMemBS()}
 	r.store = sm.NewStore(dbm.NewMemDB(), sm.StoreOptions{})
-	cli := abcicli.NewLocalClient(new(tmsync.Mutex), r.app)
-	r.exec = sm.NewBlockExecutor(r.store, log.NewNopLogger(), proxy.NewAppConnConsensus(cli), r.mp, r.evp)
 	return r
 }
 
@@ -528,6 +542,14 @@ func (r *replica) boot(st sm.State) {
 	if err := r.store.Save(r.state); err != nil {
 		panic(err)
 	}
+	// the REAL evidence pool on the replica's own state store and block store
+	evp, err := evidence.NewPool(dbm.NewMemDB(), r.store, r.bs)
+	if err != nil {
+		panic(err)
+	}
+	r.evp = evp
+	cli := abcicli.NewLocalClient(new(tmsync.Mutex), r.app)
+	r.exec = sm.NewBlockExecutor(r.store, log.NewNopLogger(), proxy.NewAppConnConsensus(cli), r.mp, r.evp)
 }
 
 // ---------------------------------------------------------------- error classes
@@ -595,7 +617,20 @@ func errClass(err error) string {
 		{"is not equal to genesis time", "e-time-genesis"},
 		{"lower than initial height", "e-height-below-initial"},
 		{"Too much evidence", "e-evidence-overflow"},
-		{"scripted-evidence-pool-reject", "e-evidence-check"},
+		{"Invalid evidence:", "e-evidence-check"},
+		{"don't have header #", "e-evidence-check"},
+		{"evidence has a different time to the block", "e-evidence-check"},
+		{"is too old; min height is", "e-evidence-check"},
+		{"was not a validator at height", "e-evidence-check"},
+		{"h/r/s does not match", "e-evidence-check"},
+		{"validator addresses do not match", "e-evidence-check"},
+		{"not a real duplicate vote", "e-evidence-check"},
+		{"doesn't match pubkey", "e-evidence-check"},
+		{"validator power from evidence", "e-evidence-check"},
+		{"total voting power from the evidence", "e-evidence-check"},
+		{"verifying VoteA", "e-evidence-check"},
+		{"verifying VoteB", "e-evidence-check"},
+		{"validators at height", "e-evidence-check"},
 	} {
 		if strings.Contains(s, p.pat) {
 			return p.cls
@@ -611,12 +646,11 @@ func errClass(err error) string {
 
 func blockLine(r, rb *replica, b blkT, admit bool) string {
 	blk := realBlock(b)
-	r.evp.admit = admit
+	_ = admit
 	v := errClass(r.exec.ValidateBlock(r.state, realBlock(b)))
 	// the independently constructed replica must reach the same verdict on the same block
 	rbv := "same"
 	if rb != nil && rb.state.Validators != nil {
-		rb.evp.admit = admit
 		if v2 := errClass(rb.exec.ValidateBlock(rb.state, realBlock(b))); v2 != v {
 			rbv = "DIFF:" + v2
 		}
@@ -753,7 +787,9 @@ func genesisFromToks(m map[string]string) (sm.State, error) {
 	return st, nil
 }
 
-func execOp(a, b *replica, cur **blkT, op string) (out string) {
+// replica c is a node that only ever applies blocks (the block-sync path: ApplyBlock runs the
+// stateless validateBlock, never the pool's CheckEvidence)
+func execOp(a, b, c *replica, cur **blkT, op string) (out string) {
 	parsed := false
 	defer func() {
 		if r := recover(); r != nil {
@@ -775,13 +811,14 @@ func execOp(a, b *replica, cur **blkT, op string) (out string) {
 			return "bad-op"
 		}
 		parsed = true
-		*a, *b = *newReplica(), *newReplica()
+		*a, *b, *c = *newReplica(), *newReplica(), *newReplica()
 		a.boot(st)
 		b.boot(st)
+		c.boot(st)
 		*cur = nil
 		return "st " + stateToks(a.state, false)
 	case "set":
-		if a.state.Validators == nil || m["v"] == "" || !setField(&a.state, m["f"], m["v"]) || !setField(&b.state, m["f"], m["v"]) {
+		if a.state.Validators == nil || m["v"] == "" || !setField(&a.state, m["f"], m["v"]) || !setField(&b.state, m["f"], m["v"]) || !setField(&c.state, m["f"], m["v"]) {
 			return "bad-op"
 		}
 		return "st " + stateToks(a.state, false)
@@ -793,7 +830,16 @@ func execOp(a, b *replica, cur **blkT, op string) (out string) {
 		realBlock(bt)
 		parsed = true
 		*cur = &bt
-		return blockLine(a, b, bt, m["evadm"] != "0")
+		line := blockLine(a, b, bt, true)
+		rcv := "same"
+		if strings.HasPrefix(m["pert"], "evidence.committed") && c.state.Validators != nil {
+			// evidence that is already in a committed block must be refused on every node, whichever
+			// way that block reached it
+			if v2 := errClass(c.exec.ValidateBlock(c.state, realBlock(bt))); v2 != outKV(line)["v"] {
+				rcv = "DIFF:" + v2
+			}
+		}
+		return line + " rc=" + rcv
 	case "make":
 		if a.state.Validators == nil {
 			return "bad-op"
@@ -819,7 +865,6 @@ func execOp(a, b *replica, cur **blkT, op string) (out string) {
 		c := parseCommit(m["lc"])
 		a.mp.pool = unhxList(m["pool"])
 		a.mp.gotMax = -7
-		a.evp.pending = realEvs(parseEvs(m["ev"]))
 		ch, cprop := atoi(m["h"]), unhx(m["prop"])
 		if c.Nil || m["prop"] == "" || m["pool"] == "" {
 			return "bad-op"
@@ -838,14 +883,31 @@ func execOp(a, b *replica, cur **blkT, op string) (out string) {
 			}()
 			blk, _ = a.exec.CreateProposalBlock(ch, a.state, realCommit(c), cprop)
 		}()
-		a.evp.pending = nil
 		if blk == nil {
 			return "maxdata=panic"
 		}
 		bt := opBlock(blk)
 		*cur = &bt
-		return fmt.Sprintf("maxdata=%d ntx=%d %s fits=%v", a.mp.gotMax, a.mp.reaped, blockLine(a, b, bt, m["evadm"] != "0"),
+		return fmt.Sprintf("maxdata=%d ntx=%d nev=%d %s fits=%v", a.mp.gotMax, a.mp.reaped, len(blk.Evidence.Evidence), blockLine(a, b, bt, m["evadm"] != "0"),
 			int64(blk.Size()) <= a.state.ConsensusParams.Block.MaxBytes)
+	case "addev":
+		if a.state.Validators == nil {
+			return "bad-op"
+		}
+		evs := realEvs(parseEvs(m["ev"]))
+		if len(evs) != 1 || parseEvs(m["ev"])[0].DVT == "" {
+			return "bad-op"
+		}
+		parsed = true
+		errA := a.evp.AddEvidence(evs[0])
+		errB := b.evp.AddEvidence(realEvs(parseEvs(m["ev"]))[0])
+		if (errA == nil) != (errB == nil) {
+			return "det=DIFF:addevidence"
+		}
+		if errA != nil {
+			return "err"
+		}
+		return "ok"
 	case "apply":
 		if a.state.Validators == nil || *cur == nil {
 			return "bad-op"
@@ -868,7 +930,11 @@ func execOp(a, b *replica, cur **blkT, op string) (out string) {
 			}
 		}
 		a.app.sc, b.app.sc = sc, sc
+		undoA := a.bs.save(blkA, bid)
 		stA, _, errA := a.exec.ApplyBlock(a.state, bid, blkA)
+		if errA != nil {
+			undoA()
+		}
 		if blkB == nil {
 			// undecodable on the wire: replica B cannot even see it; A must have refused it too
 			if errA == nil {
@@ -876,7 +942,11 @@ func execOp(a, b *replica, cur **blkT, op string) (out string) {
 			}
 			return applyClass(errA)
 		}
+		undoB := b.bs.save(blkB, bid)
 		stB, _, errB := b.exec.ApplyBlock(b.state, bid, blkB)
+		if errB != nil {
+			undoB()
+		}
 		if (errA == nil) != (errB == nil) {
 			return fmt.Sprintf("det=DIFF:error-on-one-replica:%v/%v", errA != nil, errB != nil)
 		}
@@ -919,19 +989,34 @@ func execOp(a, b *replica, cur **blkT, op string) (out string) {
 				det = "DIFF:state-roundtrip"
 			}
 		}
+		// the block-sync node: the same block over the wire, ApplyBlock only
+		if c.state.Validators != nil && det == "same" {
+			undoC := c.bs.save(blkB, bid)
+			c.app.sc = sc
+			stC, _, errC := c.exec.ApplyBlock(c.state, bid, blkB)
+			if errC != nil {
+				undoC()
+				det = "DIFF:sync-node-refuses"
+			} else {
+				if !bytes.Equal(stC.Bytes(), stA.Bytes()) {
+					det = "DIFF:sync-node-state-bytes"
+				}
+				c.state = stC
+			}
+		}
 		a.state, b.state = stA, stB
 		*cur = nil
-		return "ok det=" + det + " st " + stateToks(stA, false)
+		return "ok det=" + det + " st " + stateToks(stA, false) + " xck=ok"
 	}
 	return "bad-op"
 }
 
 func execCase(c core.Case) []string {
-	a, b := &replica{}, &replica{}
+	a, b, rc := &replica{}, &replica{}, &replica{}
 	var cur *blkT
 	out := make([]string, 0, len(c.Ops))
 	for _, op := range c.Ops {
-		out = append(out, execOp(a, b, &cur, op))
+		out = append(out, execOp(a, b, rc, &cur, op))
 	}
 	return out
 }
@@ -1043,6 +1128,9 @@ func oracle(c core.Case, out []string) []core.Finding {
 				}
 			}
 		}
+		if o["rc"] != "" && o["rc"] != "same" {
+			fs = append(fs, core.Finding{Fingerprint: "ValidateBlock.sync-node-disagrees." + m["pert"], Desc: "a node that applied the chain without validating proposals judges the block differently: " + o["v"] + " vs " + o["rc"]})
+		}
 		if o["rb"] != "" && o["rb"] != "same" {
 			fs = append(fs, core.Finding{Fingerprint: "ValidateBlock.replicas-disagree", Desc: "replica B judges replica A's block differently: A " + o["v"] + ", B " + o["rb"]})
 		}
@@ -1080,6 +1168,13 @@ func oracle(c core.Case, out []string) []core.Finding {
 			if kind == "create" && o["fits"] == "false" && m["budget"] != "exempt" {
 				fp := "CreateProposalBlock.block-exceeds-MaxBytes." + m["scn"]
 				fs = append(fs, core.Finding{Fingerprint: fp, Desc: fmt.Sprintf("CreateProposalBlock built a block of %s bytes although MaxDataBytes(%s) did not panic (scenario %s)", o["size"], o["maxdata"], m["scn"])})
+			}
+		case "addev":
+			if m["expect"] == "ok" && out[i] != "ok" {
+				fs = append(fs, core.Finding{Fingerprint: "AddEvidence.rejects.genuine", Desc: "the pool refused genuine, fresh, new duplicate-vote evidence: " + out[i]})
+			}
+			if m["expect"] == "err" && out[i] == "ok" {
+				fs = append(fs, core.Finding{Fingerprint: "AddEvidence.accepts." + m["variant"], Desc: "the pool accepted evidence that is " + m["variant"]})
 			}
 		case "apply":
 			if d, ok := o["det"]; ok && d != "same" {
@@ -1130,6 +1225,15 @@ type gen struct {
 	rep    *replica
 	ops    []string
 	nkey   int
+	hist      []histE           // applied blocks: height, header time, validator set of that height
+	committed map[string]bool   // evidence (inner bytes) committed in applied blocks
+	commitEv  []evT
+}
+
+type histE struct {
+	h    int64
+	t    time.Time
+	vals *types.ValidatorSet
 }
 
 func (g *gen) newKey() ed25519.PrivKey {
@@ -1267,27 +1371,143 @@ func (g *gen) commitForW(st sm.State, scn string) (*types.Commit, int64, int64) 
 	return types.NewCommit(st.LastBlockHeight, round, st.LastBlockID, sigs), byzw, totw
 }
 
-func (g *gen) mkDVE(st sm.State) types.Evidence {
-	r := g.r
-	k := g.allKey[r.Intn(len(g.allKey))]
-	addr := k.PubKey().Address()
-	h := st.LastBlockHeight
-	if h < 1 {
-		h = 1
+var evVariants = []string{"wrong-time", "wrong-power", "wrong-total", "non-validator", "future-height", "bad-sig", "round-mismatch"}
+
+func (g *gen) histAt(h int64) *histE {
+	for i := range g.hist {
+		if g.hist[i].h == h {
+			return &g.hist[i]
+		}
 	}
-	ts := st.LastBlockTime
-	mk := func() *types.Vote {
+	return nil
+}
+
+// has the evidence expired for a node whose latest state is st (both limits exceeded)
+func expiredFor(st sm.State, h int64, t time.Time) bool {
+	return st.LastBlockHeight-h > st.ConsensusParams.Evidence.MaxAgeNumBlocks &&
+		st.LastBlockTime.Sub(t) > st.ConsensusParams.Evidence.MaxAgeDuration
+}
+
+func voteTok(v *types.Vote, ok bool) string {
+	var bid uint64
+	for i := 0; i < 7 && i < len(v.BlockID.Hash); i++ {
+		bid = bid<<8 | uint64(v.BlockID.Hash[i])
+	}
+	sg := "bad"
+	if ok {
+		sg = "ok"
+	}
+	pre := v.Signature
+	if len(pre) > 6 {
+		pre = pre[:6]
+	}
+	return fmt.Sprintf("%d/%d/%d/%s/%d/%s/%d/%s%s", v.Height, v.Round, int(v.Type), hex.EncodeToString(v.ValidatorAddress), bid,
+		nanos(v.Timestamp), v.ValidatorIndex, sg, hex.EncodeToString(pre))
+}
+
+// the evidence item for the op line, with its reading in C11's terms: the signature tokens say
+// whether the real ed25519 accepts the vote under the key of the validator with that address at the
+// evidence height (what VerifyDuplicateVote checks)
+func (g *gen) evTok(chainID string, d *types.DuplicateVoteEvidence) evT {
+	x := opEv(d)
+	ok := func(v *types.Vote) bool {
+		e := g.histAt(v.Height)
+		if e == nil {
+			return false
+		}
+		_, val := e.vals.GetByAddress(v.ValidatorAddress)
+		return val != nil && val.PubKey.VerifySignature(types.VoteSignBytes(chainID, v.ToProto()), v.Signature)
+	}
+	x.DVT = fmt.Sprintf("%s~%s~%d~%d~%s", voteTok(d.VoteA, ok(d.VoteA)), voteTok(d.VoteB, ok(d.VoteB)), d.TotalVotingPower, d.ValidatorPower, nanos(d.Timestamp))
+	return x
+}
+
+// duplicate-vote evidence against a validator of an applied height; variant "genuine" is what a
+// correct node would form (not expired for st), the others break exactly one thing
+func (g *gen) mkDVE(st sm.State, variant string) (evT, bool) {
+	r := g.r
+	var e histE
+	switch variant {
+	case "future-height":
+		e = histE{h: st.LastBlockHeight + int64(2+r.Intn(3)), t: st.LastBlockTime.Add(time.Second), vals: st.Validators}
+	case "expired":
+		var c []histE
+		for _, x := range g.hist {
+			if expiredFor(st, x.h, x.t) {
+				c = append(c, x)
+			}
+		}
+		if len(c) == 0 {
+			return evT{}, false
+		}
+		e = c[r.Intn(len(c))]
+	default:
+		var c []histE
+		for _, x := range g.hist {
+			if !expiredFor(st, x.h, x.t) {
+				c = append(c, x)
+			}
+		}
+		if len(c) == 0 {
+			return evT{}, false
+		}
+		e = c[r.Intn(len(c))]
+	}
+	vi := r.Intn(len(e.vals.Validators))
+	val := e.vals.Validators[vi]
+	k, have := g.keys[string(val.Address)]
+	if !have {
+		return evT{}, false
+	}
+	addr := val.Address
+	vp, tvp := val.VotingPower, e.vals.TotalVotingPower()
+	if variant == "non-validator" {
+		k = g.newKey()
+		addr = k.PubKey().Address()
+		vp = int64(1 + r.Intn(9))
+	}
+	chain := st.ChainID
+	if variant == "bad-sig" {
+		chain += "-other"
+	}
+	typ := []tmproto.SignedMsgType{tmproto.PrevoteType, tmproto.PrecommitType}[r.Intn(2)]
+	round := int32(r.Intn(3))
+	mk := func(round int32) *types.Vote {
 		bid := types.BlockID{Hash: g.rbytes(32), PartSetHeader: types.PartSetHeader{Total: uint32(1 + r.Intn(5)), Hash: g.rbytes(32)}}
-		v := &types.Vote{Type: tmproto.PrecommitType, Height: h, Round: 0, BlockID: bid, Timestamp: ts, ValidatorAddress: addr, ValidatorIndex: 0}
-		sig, _ := k.Sign(types.VoteSignBytes(st.ChainID, v.ToProto()))
+		v := &types.Vote{Type: typ, Height: e.h, Round: round, BlockID: bid, Timestamp: e.t.Add(time.Duration(r.Intn(1000))), ValidatorAddress: addr, ValidatorIndex: int32(vi)}
+		sig, _ := k.Sign(types.VoteSignBytes(chain, v.ToProto()))
 		v.Signature = sig
 		return v
 	}
-	a, b := mk(), mk()
+	rb := round
+	if variant == "round-mismatch" {
+		rb++
+	}
+	a, b := mk(round), mk(rb)
 	if strings.Compare(a.BlockID.Key(), b.BlockID.Key()) >= 0 {
 		a, b = b, a
 	}
-	return &types.DuplicateVoteEvidence{VoteA: a, VoteB: b, TotalVotingPower: 10 + int64(r.Intn(100)), ValidatorPower: 1 + int64(r.Intn(9)), Timestamp: ts}
+	ts := e.t
+	switch variant {
+	case "wrong-time":
+		ts = ts.Add(time.Second)
+	case "wrong-power":
+		vp++
+	case "wrong-total":
+		tvp++
+	}
+	d := &types.DuplicateVoteEvidence{VoteA: a, VoteB: b, TotalVotingPower: tvp, ValidatorPower: vp, Timestamp: ts}
+	return g.evTok(st.ChainID, d), true
+}
+
+// re-attach the structured reading to evidence items that went through the real block
+func (g *gen) retok(st sm.State, evs []evT) []evT {
+	out := make([]evT, len(evs))
+	for i, x := range evs {
+		out[i] = g.evTok(st.ChainID, realEv(x).(*types.DuplicateVoteEvidence))
+		out[i].Basic = x.Basic
+	}
+	return out
 }
 
 // per slot of the commit: does the real ed25519 accept the signature under the validator at that
@@ -1411,7 +1631,15 @@ func (g *gen) perturbations(st sm.State, b blkT) []pert {
 	if len(b.Txs) > 1 && !bytes.Equal(b.Txs[0], b.Txs[1]) {
 		add("txs.swap", "reject", func(x *blkT) { x.Txs[0], x.Txs[1] = x.Txs[1], x.Txs[0] })
 	}
-	add("evidence.add", "reject", func(x *blkT) { x.Ev = append(x.Ev, opEv(g.mkDVE(st))) })
+	anyEv := func() (evT, bool) {
+		if e, ok := g.mkDVE(st, "genuine"); ok {
+			return e, true
+		}
+		return g.mkDVE(st, "future-height")
+	}
+	if e, ok := anyEv(); ok {
+		add("evidence.add", "reject", func(x *blkT) { x.Ev = append(x.Ev, e) })
+	}
 	if len(b.Ev) > 0 {
 		add("evidence.remove", "reject", func(x *blkT) { x.Ev = x.Ev[:len(x.Ev)-1] })
 	}
@@ -1496,13 +1724,26 @@ func (g *gen) perturbations(st sm.State, b blkT) []pert {
 	}
 	// --- evidence with the dependent hash recomputed
 	evHash := func(x *blkT) { ed := types.EvidenceData{Evidence: realEvs(x.Ev)}; x.EH = ed.Hash() }
-	add("evidence.add+hash", "size", func(x *blkT) { x.Ev = append(x.Ev, opEv(g.mkDVE(st))); evHash(x) })
-	add("evidence.invalid-basic+hash", "reject", func(x *blkT) {
-		d := g.mkDVE(st).(*types.DuplicateVoteEvidence)
-		d.VoteA, d.VoteB = d.VoteB, d.VoteA
-		x.Ev = append(x.Ev, opEv(d))
-		evHash(x)
-	})
+	if e, ok := g.mkDVE(st, "genuine"); ok {
+		// a genuine, fresh, new item: admissible, so only the size limit can refuse it
+		add("free:evidence.genuine+hash", "size", func(x *blkT) { x.Ev = append(x.Ev, e); evHash(x) })
+		add("evidence.duplicate+hash", "reject", func(x *blkT) { x.Ev = append(x.Ev, e, e); evHash(x) })
+		add("evidence.invalid-basic+hash", "reject", func(x *blkT) {
+			d := realEv(e).(*types.DuplicateVoteEvidence)
+			d.VoteA, d.VoteB = d.VoteB, d.VoteA
+			x.Ev = append(x.Ev, g.evTok(st.ChainID, d))
+			evHash(x)
+		})
+	}
+	for _, v := range append([]string{"expired"}, evVariants...) {
+		if e, ok := g.mkDVE(st, v); ok {
+			add("evidence."+v+"+hash", "reject", func(x *blkT) { x.Ev = append(x.Ev, e); evHash(x) })
+		}
+	}
+	if len(g.commitEv) > 0 {
+		e := g.commitEv[r.Intn(len(g.commitEv))]
+		add("evidence.committed+hash", "reject", func(x *blkT) { x.Ev = append(x.Ev, e); evHash(x) })
+	}
 	// --- free choices with the dependent hash recomputed: must stay valid
 	add("free:txs+datahash", "ok", func(x *blkT) {
 		x.Txs = append(x.Txs, g.rbytes(1+r.Intn(3)))
@@ -1568,6 +1809,11 @@ func (g *gen) chain(tier string, kind string) core.Case {
 		p.Block.MaxBytes = int64(900 + 111*nv + r.Intn(3000))
 		p.Evidence.MaxBytes = int64(r.Intn(int(p.Block.MaxBytes / 2)))
 	}
+	if r.Intn(3) == 0 && kind != "extreme" {
+		// evidence expires quickly on this chain
+		p.Evidence.MaxAgeNumBlocks = int64(1 + r.Intn(3))
+		p.Evidence.MaxAgeDuration = time.Duration(1 + r.Intn(1000))
+	}
 	va := uint64(0)
 	if r.Intn(4) == 0 {
 		va = uint64(r.Intn(300))
@@ -1631,8 +1877,28 @@ func (g *gen) chain(tier string, kind string) core.Case {
 		}
 		prop := st.Validators.Validators[r.Intn(len(st.Validators.Validators))].Address
 		var evs []evT
-		for k := r.Intn(3); k > 0 && r.Intn(2) == 0; k-- {
-			evs = append(evs, opEv(g.mkDVE(st)))
+		if kind != "hostile" && kind != "wide" {
+			for k := r.Intn(3); k > 0 && r.Intn(2) == 0; k-- {
+				if e, ok := g.mkDVE(st, "genuine"); ok {
+					evs = append(evs, e)
+				}
+			}
+			// evidence reaching the pool from peers: genuine items become pending (and are proposed by
+			// CreateProposalBlock), broken ones are refused
+			for k := r.Intn(3); k > 0; k-- {
+				v := "genuine"
+				if r.Intn(2) == 0 {
+					v = append([]string{"expired"}, evVariants...)[r.Intn(1+len(evVariants))]
+				}
+				if e, ok := g.mkDVE(st, v); ok {
+					exp := "err"
+					if v == "genuine" {
+						exp = "ok"
+					}
+					g.emit(fmt.Sprintf("addev ev=%s expect=%s variant=%s", showEvs([]evT{e}), exp, v))
+					_ = g.rep.evp.AddEvidence(realEv(e))
+				}
+			}
 		}
 		if len(evs) > 0 {
 			ed := types.EvidenceData{Evidence: realEvs(evs)}
@@ -1667,11 +1933,11 @@ func (g *gen) chain(tier string, kind string) core.Case {
 			if len(st.AppHash) > 32 {
 				budget = " budget=exempt"
 			}
-			g.emit(fmt.Sprintf("create h=%d pool=%s ev=%s prop=%s lc=%s sigok=%s evadm=1 expect=%s scn=%s%s", h, hxList(pool), showEvs(evs), hx(prop),
+			g.emit(fmt.Sprintf("create h=%d pool=%s prop=%s lc=%s sigok=%s expect=%s scn=%s%s", h, hxList(pool), hx(prop),
 				showCommit(lc), sigokHint(st, blkT{H: h, LC: lc}), exp(map[bool]string{true: "ok", false: "any"}[scn == "honest"]), cscn, budget))
 		}
 		// the proposer's block
-		mk := fmt.Sprintf("make h=%d txs=%s ev=%s prop=%s lc=%s sigok=%s evadm=1 expect=%s scn=%s byzw=%d totw=%d wt=%s%s", h, hxList(txs), showEvs(evs), hx(prop), showCommit(lc),
+		mk := fmt.Sprintf("make h=%d txs=%s ev=%s prop=%s lc=%s sigok=%s expect=%s scn=%s byzw=%d totw=%d wt=%s%s", h, hxList(txs), showEvs(evs), hx(prop), showCommit(lc),
 			sigokHint(st, blkT{H: h, LC: lc}), exp(mkExpect), scn, byzw, totw, wtHint(st, lc), mkPert)
 		g.emit(mk)
 		var rtxs []types.Tx
@@ -1680,6 +1946,7 @@ func (g *gen) chain(tier string, kind string) core.Case {
 		}
 		blk, parts := st.MakeBlock(h, rtxs, commit, realEvs(evs), prop)
 		b := opBlock(blk)
+		b.Ev = g.retok(st, b.Ev)
 		valid := g.rep.exec.ValidateBlock(st, realBlock(b)) == nil
 		if !valid && tainted {
 			break
@@ -1693,21 +1960,27 @@ func (g *gen) chain(tier string, kind string) core.Case {
 					ed := types.EvidenceData{Evidence: realEvs(p.b.Ev)}
 					p.expect = map[bool]string{true: "ok", false: "reject"}[ed.ByteSize() <= st.ConsensusParams.Evidence.MaxBytes]
 				}
-				g.emit(g.blockOp(st, p.b, fmt.Sprintf(" evadm=1 pert=%s expect=%s", p.name, p.expect)))
+				g.emit(g.blockOp(st, p.b, fmt.Sprintf(" pert=%s expect=%s", p.name, p.expect)))
+				// the generator's own node sees the same blocks (CheckEvidence leaves verified items pending)
+				func() {
+					defer func() { recover() }()
+					_ = g.rep.exec.ValidateBlock(st, realBlock(p.b))
+				}()
 			}
-			// evidence the pool refuses
-			g.emit(g.blockOp(st, b, " evadm=0 pert=evidence.inadmissible expect=reject"))
-			g.emit(g.blockOp(st, b, " evadm=1 pert=free:none expect=ok"))
+			g.emit(g.blockOp(st, b, " pert=free:none expect=ok"))
+			_ = g.rep.exec.ValidateBlock(st, realBlock(b))
 		}
 		if !valid {
 			// a correct proposer's block was refused (reported by the oracle at the make op): the
 			// chain continues with an honest commit instead
 			commit = g.commitFor(st, "honest")
 			lc = opCommit(commit)
-			g.emit(fmt.Sprintf("make h=%d txs=%s ev=%s prop=%s lc=%s sigok=%s evadm=1 expect=ok scn=honest wt=%s", h, hxList(txs), showEvs(evs), hx(prop), showCommit(lc),
+			g.emit(fmt.Sprintf("make h=%d txs=%s ev=%s prop=%s lc=%s sigok=%s expect=ok scn=honest wt=%s", h, hxList(txs), showEvs(evs), hx(prop), showCommit(lc),
 				sigokHint(st, blkT{H: h, LC: lc}), wtHint(st, lc)))
 			blk, parts = st.MakeBlock(h, rtxs, commit, realEvs(evs), prop)
 			b = opBlock(blk)
+			b.Ev = g.retok(st, b.Ev)
+			_ = g.rep.exec.ValidateBlock(st, realBlock(b))
 		}
 		// application responses
 		var sc script
@@ -1771,7 +2044,8 @@ func (g *gen) chain(tier string, kind string) core.Case {
 			}
 			if r.Intn(3) == 0 {
 				em := int64(r.Intn(3000))
-				parts = append(parts, fmt.Sprintf("e:%d:%d:%d", 1+r.Intn(1000), int64(time.Hour)*int64(1+r.Intn(48)), em))
+				// the age limits stay (C11's model has them fixed per chain); only the size limit moves
+				parts = append(parts, fmt.Sprintf("e:%d:%d:%d", st.ConsensusParams.Evidence.MaxAgeNumBlocks, int64(st.ConsensusParams.Evidence.MaxAgeDuration), em))
 			}
 			if r.Intn(4) == 0 {
 				parts = append(parts, "v:"+[]string{"ed25519", "ed25519+secp256k1", "-", "bogus"}[r.Intn(4)])
@@ -1797,7 +2071,12 @@ func (g *gen) chain(tier string, kind string) core.Case {
 					paniced = true
 				}
 			}()
-			nst, _, aerr = g.rep.exec.ApplyBlock(st, bid, realBlock(b))
+			rb := realBlock(b)
+			undo := g.rep.bs.save(rb, bid)
+			nst, _, aerr = g.rep.exec.ApplyBlock(st, bid, rb)
+			if aerr != nil {
+				undo()
+			}
 		}()
 		if paniced {
 			break // only under hostile state edits (the store no longer matches the state)
@@ -1832,6 +2111,11 @@ func (g *gen) chain(tier string, kind string) core.Case {
 		expect := "any"
 		if aerr == nil {
 			g.rep.state = nst
+			g.hist = append(g.hist, histE{h: b.H, t: fromNanos(b.T), vals: st.Validators.Copy()})
+			for _, e := range b.Ev {
+				g.committed[hex.EncodeToString(e.Inner)] = true
+				g.commitEv = append(g.commitEv, e)
+			}
 		}
 		if pu == "none" && len(updS) == 0 {
 			expect = exp("ok")
@@ -1912,7 +2196,7 @@ func (g *gen) extreme(appLen int) core.Case {
 	// first block
 	c0 := types.NewCommit(0, 0, types.BlockID{}, nil)
 	lc0 := opCommit(c0)
-	g.emit(fmt.Sprintf("make h=%d txs=- ev=- prop=%s lc=%s sigok=. evadm=1 expect=ok scn=honest wt=-", ih, hx(prop), showCommit(lc0)))
+	g.emit(fmt.Sprintf("make h=%d txs=- ev=- prop=%s lc=%s sigok=. expect=ok scn=honest wt=-", ih, hx(prop), showCommit(lc0)))
 	blk, _ := st.MakeBlock(ih, nil, c0, nil, prop)
 	bid := types.BlockID{Hash: blk.Hash(), PartSetHeader: types.PartSetHeader{Total: 1 << 28, Hash: g.rbytes(32)}}
 	sc := script{AppHash: g.rbytes(appLen)}
@@ -1939,7 +2223,7 @@ func (g *gen) extreme(appLen int) core.Case {
 		budget = " budget=exempt"
 	}
 	pool := [][]byte{g.rbytes(dataBudget - 3)}
-	g.emit(fmt.Sprintf("create h=%d pool=%s ev=- prop=%s lc=%s sigok=%s evadm=1 expect=ok scn=%s hdr=%d%s", ih+1, hxList(pool), hx(prop),
+	g.emit(fmt.Sprintf("create h=%d pool=%s ev=- prop=%s lc=%s sigok=%s expect=ok scn=%s hdr=%d%s", ih+1, hxList(pool), hx(prop),
 		showCommit(lc), sigokHint(st, blkT{H: ih + 1, LC: lc}), scn, hdr, budget))
 	return core.Case{Kind: "extreme", Ops: g.ops}
 }
@@ -1951,15 +2235,15 @@ func genAll(r *rand.Rand, tier string, emit func(core.Case)) {
 	}
 	kinds := []string{"chain", "chain", "byztime", "budget", "hostile", "chain"}
 	for i := 0; i < n; i++ {
-		g := &gen{r: r, id: i + int(r.Int31n(1<<20))<<8, keys: map[string]ed25519.PrivKey{}}
+		g := &gen{r: r, id: i + int(r.Int31n(1<<20))<<8, keys: map[string]ed25519.PrivKey{}, committed: map[string]bool{}}
 		emit(g.chain(tier, kinds[i%len(kinds)]))
 	}
 	for i := 0; i < 2; i++ {
-		g := &gen{r: r, id: 1000000 + i, keys: map[string]ed25519.PrivKey{}}
+		g := &gen{r: r, id: 1000000 + i, keys: map[string]ed25519.PrivKey{}, committed: map[string]bool{}}
 		emit(g.chain(tier, "wide"))
 	}
 	for i, al := range []int{32, 182, 183, 189, 190} {
-		g := &gen{r: r, id: 2000000 + i, keys: map[string]ed25519.PrivKey{}}
+		g := &gen{r: r, id: 2000000 + i, keys: map[string]ed25519.PrivKey{}, committed: map[string]bool{}}
 		emit(g.extreme(al))
 	}
 	// malformed lines
@@ -1996,10 +2280,11 @@ func main() {
 			}
 			return false
 		},
-		Rule: "chains of 5-10 (thorough: 5-40) heights from random genesis documents (1-14 validators, chain ids up to 50 bytes, initial heights at varint boundaries, small and default MaxBytes) driven through the real BlockExecutor with a scripted application (random DeliverTx results, validator additions/removals/power changes, parameter updates incl. invalid ones, app hashes of 0/8/32 bytes); last commits with random absent/nil voters, and with <1/3 power stamping early times; at one or two heights every header field and every content item of the valid block is perturbed one at a time (about 75 variants); CreateProposalBlock with pools that fill the data budget, also right after validator removals; hostile edits of the node's own state. Non-trivial = at least one block applied on both replicas with identical State.Bytes() and Block.Hash()",
-		Assumptions: []string{"VerifyCommit (C07), evidence admissibility (C11) and validator-set update arithmetic (C08) enter the model as verdicts computed by the real code on the same input; their own properties are checked elsewhere",
+		Rule: "chains of 5-10 (thorough: 5-40) heights from random genesis documents (1-14 validators, chain ids up to 50 bytes, initial heights at varint boundaries, small and default MaxBytes) driven through the real BlockExecutor with a scripted application (random DeliverTx results, validator additions/removals/power changes, parameter updates incl. invalid ones, app hashes of 0/8/32 bytes); last commits with random absent/nil voters, and with <1/3 power stamping early times; at one or two heights every header field and every content item of the valid block is perturbed one at a time (about 75 variants); CreateProposalBlock with pools that fill the data budget, also right after validator removals; hostile edits of the node's own state; genuine duplicate-vote evidence against validators of applied heights in blocks, from peers (AddEvidence) and proposed from the pool, and evidence broken in exactly one way (time, power, total, non-validator, future height, signature, round, expired, committed, repeated). Non-trivial = at least one block applied on both replicas with identical State.Bytes() and Block.Hash()",
+		Assumptions: []string{"VerifyCommit is C07's model, the validator-set update + rotation is C08's model, the evidence pool (CheckEvidence, AddEvidence, PendingEvidence, Update) is C11's model, all run inside the C06 driver in lockstep with the real BlockExecutor / evidence.Pool; what still comes from the real code per op line is only: ed25519 verdicts per commit slot and per evidence vote, and the structured reading of each evidence item (its bytes are hashed by the model)",
+			"the set the real code computed for NextValidators is carried as a cross-check only (xck=)",
 			"SHA-256 is an arbitrary function in the theorems; the driver instantiates it with a Lean SHA-256 so every hash and the marshalled block are byte-compared",
-			"times are integer nanoseconds; Go's UnixNano wrap outside 1678..2262 is not modelled (generator stays inside)"},
+			"times are integer nanoseconds; Go's UnixNano wrap outside 1678..2262 is not modelled (generator stays inside); the evidence age limits are fixed per chain (C11's context), only Evidence.MaxBytes is updated"},
 		Extra: func() map[string]interface{} {
 			return map[string]interface{}{"perturbation_histogram": sortedHist(pertHist), "commit_scenarios": sortedHist(scnHist),
 				"validate_verdict_histogram": sortedHist(verdHist)}
